@@ -18,6 +18,9 @@ OBLIGATIONS = [
     "Pkgcore.C21.update_written_beside",
     "Pkgcore.C21.uninstall_keeps_modified",
     "Pkgcore.C21.uninstall_removes_the_rest",
+    "Pkgcore.C21.history_keeps_wf",
+    "Pkgcore.C21.history_protected_never_overwritten",
+    "Pkgcore.C21.history_uninstall_keeps_modified",
 ]
 TRUSTED = [
     "file contents are compared through snakeoil checksums (simple_chksum_compare); the model compares content identities, i.e. assumes no hash collision",
@@ -41,7 +44,9 @@ ASSUMPTIONS = [
 ]
 RULE = ("random scratch roots: env.d files (several, with skipped names) setting CONFIG_PROTECT / CONFIG_PROTECT_MASK / COLLISION_IGNORE (globs, directory entries, "
         "suffix-lookalikes), live config files, pending ._cfgNNNN_ updates (identical, different, gaps, malformed names), package images with identical and differing "
-        "replacements, install / replace / uninstall engines with the ebuild config-protect triggers registered, plain and unnormalised offsets; non-trivial = at "
+        "replacements, install / replace / uninstall engines with the ebuild config-protect triggers registered, plain and unnormalised offsets; single operations on fresh "
+        "roots and histories of 2-4 operations of this one process on one root with config files and env.d edited in between (env.d files rewritten in place, "
+        "created, removed; the root spelled differently) — every operation judged against the settings env.d holds when it runs; non-trivial = at "
         "least one file is protected-and-differing and at least one file is merged or removed normally")
 
 DIRS = ["/etc", "/etc/app", "/etc/app/conf.d", "/opt/cfg", "/usr/share/x", "/var/lib/y", "/etc/ign", "/opt/cfg/sub", "/etc/w[0-9]", "/opt/c*g/sub"]
@@ -54,7 +59,9 @@ def valid_envd_name(x):
     return not (x.endswith((".bak", "~")) or x.startswith("._cfg") or len(x) <= 2 or not x[0:2].isdigit())
 
 
-def gen_case(rng):
+def gen_case(rng, prev_envd=None, links=True):
+    """one operation on a scratch root.  With `prev_envd` (the env.d files of the operation before, same root) the new settings are spread over exactly
+    the same file names, so that going from one to the other rewrites existing env.d files in place and neither creates nor removes a directory entry"""
     mode = rng.choice(["install", "install", "install", "replace", "uninstall"])
     protects = [rng.choice(["/opt/cfg", "/opt/cfg/", "/usr/share/x", "/var/lib", "/etc/app", "/opt//cfg/.", "/opt", "/opt/c*g", "/opt/c*g/sub"]) for _ in range(rng.choice([0, 0, 1, 1, 2]))]
     masks = [rng.choice(["/etc/app", "/etc/app/conf.d", "/opt/cfg/sub", "/etc/ign/", "/usr/share", "/etc/ap"]) for _ in range(rng.choice([0, 0, 1, 1, 2]))]
@@ -64,7 +71,10 @@ def gen_case(rng):
     envd = []
     names = ["00basic", "50app", "99local", "70x"]
     rng.shuffle(names)
-    buckets = [dict() for _ in range(rng.choice([1, 2, 3]))]
+    keep = [f for f in (prev_envd or []) if valid_envd_name(f["name"])]
+    if keep:
+        names = [f["name"] for f in keep]
+    buckets = [dict() for _ in range(len(keep) or rng.choice([1, 2, 3]))]
     for tok in protects:
         rng.choice(buckets).setdefault("CONFIG_PROTECT", []).append(tok)
     for tok in masks:
@@ -76,7 +86,9 @@ def gen_case(rng):
     used = sorted(names[: len(buckets)])
     for n, b in zip(used, buckets):
         envd.append({"name": n, "vars": b})
-    if rng.random() < 0.4:
+    if keep:
+        envd += [f for f in prev_envd if not valid_envd_name(f["name"])]
+    elif rng.random() < 0.4:
         envd.append({"name": rng.choice(["50app.bak", "._cfg0000_50app", "x", "README", "60gcc~"]), "vars": {"CONFIG_PROTECT": ["/usr/share/x"], "CONFIG_PROTECT_MASK": ["/etc"]}})
     extra_protects = [rng.choice(["/var/lib/y", "/usr/share/x"])] if rng.random() < 0.25 else []
     extra_masks = [rng.choice(["/etc/app/conf.d", "/opt/cfg"])] if rng.random() < 0.15 else []
@@ -96,7 +108,7 @@ def gen_case(rng):
                 image[p] = ["f", rng.choice(CONTENTS) if rng.random() < 0.7 else c_live]
             elif r < 0.65:
                 image[p] = ["f", rng.choice(CONTENTS)]          # new file
-            elif r < 0.70:
+            elif r < 0.70 and links:
                 live[p] = c_live
                 image[p] = ["l", "target"]                        # a symlink arriving over a live file
             else:
@@ -129,6 +141,27 @@ def gen_case(rng):
     return {"mode": mode, "envd": envd, "extra_protects": extra_protects, "extra_masks": extra_masks, "live": live, "live_dirs": live_dirs,
             "image": image, "old": old, "offset_style": rng.choice(["plain", "plain", "plain", "trailing", "dotted", "double"]),
             "plugins": rng.random() < 0.03}
+
+
+def gen_history(rng):
+    """2-4 operations of ONE process on ONE root (what pmerge does for a package list).  Between two operations the admin / other tools edit files of the
+    root (`live` of a later step = files written before that step, existing ones rewritten in place) and env.d: mostly by rewriting the existing env.d
+    files in place, otherwise by an arbitrary new set of files (created, rewritten, removed)."""
+    steps = []
+    for i in range(rng.choice([2, 2, 3, 3, 4])):
+        prev = steps[-1]["envd"] if steps and rng.random() < 0.7 else None
+        c = gen_case(rng, prev_envd=prev, links=False)
+        c["plugins"] = False
+        if steps and rng.random() < 0.5:
+            c["offset_style"] = steps[0]["offset_style"]
+        steps.append(c)
+    # a path is a file or a directory for the whole history
+    files = set()
+    for c in steps:
+        files.update(c["live"], c["image"], c["old"])
+    for c in steps:
+        c["live_dirs"] = [d for d in c["live_dirs"] if d not in files]
+    return {"steps": steps}
 
 
 def settings_of(case):
@@ -181,6 +214,31 @@ CORPUS = [
     C("install", [], {"/etc/foo": "old\n", "/etc/lnk": "old\n", "/etc/bar": "old\n"}, {"/etc/foo": ["f", "new\n"], "/etc/lnk": ["l", "foo"], "/etc/bar": ["f", "new\n"]}),
     C("install", [], {"/etc/foo": "old\n"}, {"/etc/foo": ["f", "new\n"]}, offset_style="double"),
     C("install", [], {"/etc/.keep": "old\n", "/etc/.keep_app-0": "old\n", "/etc/x": "old\n"}, {"/etc/.keep": ["f", ""], "/etc/.keep_app-0": ["f", ""], "/etc/x": ["f", "n\n"]}),
+]
+
+
+V1 = {"/opt/cfg/app.conf": ["f", "v1 defaults\n"], "/usr/share/x/site.conf": ["f", "v1 site\n"], "/usr/bin/app": ["f", "1\n"], "/etc/app/a.conf": ["f", "v1 a\n"]}
+V2 = {"/opt/cfg/app.conf": ["f", "v2 defaults\n"], "/usr/share/x/site.conf": ["f", "v2 site\n"], "/usr/bin/app": ["f", "2\n"], "/etc/app/a.conf": ["f", "v2 a\n"]}
+EDITS = {"/opt/cfg/app.conf": "v1 defaults, edited\n", "/usr/share/x/site.conf": "v1 site, edited\n", "/etc/app/a.conf": "v1 a, edited\n"}
+# several operations of one process on one root; `live` of a later step = what is written to the root before that operation (existing files in place)
+HISTORY_CORPUS = [
+    # CONFIG_PROTECT grows by an in-place edit of an existing env.d file between two merges, then shrinks again before the unmerge
+    {"steps": [C("install", [("99local", {"CONFIG_PROTECT": ["/opt/cfg"]})], {}, V1),
+               C("install", [("99local", {"CONFIG_PROTECT": ["/opt/cfg", "/usr/share/x"]})], EDITS, V2),
+               C("uninstall", [("99local", {"CONFIG_PROTECT": ["/usr/share/x"]})], {}, old={p: v[1] for p, v in V2.items()})]},
+    # a mask appears (in place): what was protected for the first merge is merged normally by the second
+    {"steps": [C("install", [("50app", {"CONFIG_PROTECT": ["/opt/cfg"]}), ("99local", {})], {"/etc/app/a.conf": "mine\n", "/opt/cfg/app.conf": "mine\n"}, V1),
+               C("install", [("50app", {"CONFIG_PROTECT": ["/opt/cfg"]}), ("99local", {"CONFIG_PROTECT_MASK": ["/etc/app", "/opt/cfg"]})], {}, V2)]},
+    # merge, admin edits + protects, unmerge in the same process
+    {"steps": [C("install", [("99local", {"CONFIG_PROTECT": []})], {}, V1),
+               C("uninstall", [("99local", {"CONFIG_PROTECT": ["/usr/share/x", "/opt"]})], EDITS, old={p: v[1] for p, v in V1.items()})]},
+    # COLLISION_IGNORE entry dropped in place; the root spelled differently by the second operation
+    {"steps": [C("install", [("50x", {"COLLISION_IGNORE": ["/etc/app/*"]})], {"/etc/app/a.conf": "mine\n"}, V1),
+               C("install", [("50x", {"COLLISION_IGNORE": ["/etc/nothing"]})], {"/etc/app/a.conf": "mine again\n"}, V2, offset_style="double")]},
+    # env.d files created and removed between the operations
+    {"steps": [C("install", [("10a", {"CONFIG_PROTECT": ["/opt/cfg"]})], {}, V1),
+               C("install", [("20b", {"CONFIG_PROTECT": ["/usr/share/x"]})], EDITS, V2),
+               C("replace", [("10a", {"CONFIG_PROTECT_MASK": ["/etc"]}), ("20b", {"CONFIG_PROTECT": ["/usr/share/x"]})], {"/etc/app/a.conf": "third\n"}, V1, old={p: v[1] for p, v in V2.items()})]},
 ]
 
 
@@ -275,24 +333,78 @@ class Recorder:
         pass
 
 
-def run_impl(case, scratch, mods):
-    contents, livefs, engine, mtriggers, etriggers, observer_mod, Pkg = mods
+def sync_envd(root, envd):
+    """make /etc/env.d hold exactly `envd`; a file that exists already is rewritten in place (same inode, the directory itself is not touched),
+    as `echo … > file`, an editor or a pkg_postinst appending to it would do"""
+    d = root + "/etc/env.d"
+    os.makedirs(d, exist_ok=True)
+    want = {f["name"]: "".join('%s="%s"\n' % (k, " ".join(v)) for k, v in f["vars"].items()) for f in envd}
+    kinds = set()
+    for name in os.listdir(d):
+        if name not in want:
+            os.unlink(os.path.join(d, name))
+            kinds.add("removed")
+    for name, text in want.items():
+        p = os.path.join(d, name)
+        if os.path.exists(p):
+            with open(p) as f:
+                if f.read() == text:
+                    continue
+            kinds.add("rewritten")
+        else:
+            kinds.add("created")
+        with open(p, "w") as f:
+            f.write(text)
+    return kinds
+
+
+def list_dirs(root):
+    out = []
+    for dp, dn, fn in os.walk(root):
+        for dname in dn:
+            p = os.path.join(dp, dname)
+            if not os.path.islink(p):
+                out.append(p[len(root):])
+    return sorted(out)
+
+
+def run_steps(steps, scratch, mods):
+    """the operations of `steps` one after the other on one scratch root, in this process.  Returns [(effective case, result)]: the effective case of a
+    step is the step with `live` / `live_dirs` = everything that is on the root when the operation starts."""
     base = tempfile.mkdtemp(dir=scratch)
     root = os.path.join(base, "root")
+    os.makedirs(root)
+    out = []
+    try:
+        for i, case in enumerate(steps):
+            for p, c in case["live"].items():
+                put(root, p, c)
+            for d in case["live_dirs"]:
+                os.makedirs(root + d, exist_ok=True)
+            edits = sync_envd(root, case["envd"])
+            eff = case
+            if i:
+                before = tree(root)
+                eff = dict(case)
+                eff["live"] = {p: v[1] for p, v in before.items() if v[0] == "f"}
+                eff["live_dirs"] = [d for d in list_dirs(root) if d != "/etc/env.d"]
+            res = run_op(eff, base, root, i, mods)
+            res["envd_edits"] = sorted(edits) if i else []
+            out.append((eff, res))
+            if res["exc"]:
+                break
+    finally:
+        shutil.rmtree(base, ignore_errors=True)
+    return out
+
+
+def run_op(case, base, root, i, mods):
+    contents, livefs, engine, mtriggers, etriggers, observer_mod, Pkg = mods
     style = case["offset_style"]
     offset = {"plain": root, "trailing": root + "/", "dotted": base + "/./root", "double": base + "//root"}[style]
-    os.makedirs(root)
-    for p, c in case["live"].items():
-        put(root, p, c)
-    for d in case["live_dirs"]:
-        os.makedirs(root + d, exist_ok=True)
-    os.makedirs(root + "/etc/env.d", exist_ok=True)
-    for f in case["envd"]:
-        lines = ['%s="%s"\n' % (k, " ".join(v)) for k, v in f["vars"].items()]
-        put(root, "/etc/env.d/" + f["name"], "".join(lines))
 
     def scan(files, name):
-        img = os.path.join(base, name)
+        img = os.path.join(base, "%s%d" % (name, i))
         os.makedirs(img)
         for p, v in files.items():
             if v[0] == "f":
@@ -309,7 +421,7 @@ def run_impl(case, scratch, mods):
     old_cs = scan({p: ["f", c] for p, c in case["old"].items()}, "oldimage") if case["mode"] != "install" else None
     rec = Recorder()
     obs = observer_mod.repo_observer(rec)
-    tmp = os.path.join(base, "tmp")
+    tmp = os.path.join(base, "tmp%d" % i)
     kw = dict(offset=offset, observer=obs, disable_plugins=not case["plugins"])
     res = {"exc": None, "recorded": None}
     try:
@@ -339,7 +451,6 @@ def run_impl(case, scratch, mods):
             res["exc"] = "a trigger raised and the engine suppressed it: " + msg.strip().splitlines()[-1]
     res["tree"] = tree(root)
     res["root"] = root
-    shutil.rmtree(base, ignore_errors=True)
     return res
 
 
@@ -477,28 +588,38 @@ def filter_differential(ctx, etriggers, scratch):
         os.makedirs(root + "/etc/env.d")
         for d in dirs:
             os.makedirs(root + d, exist_ok=True)
-        with open(root + "/etc/env.d/50x", "w") as f:
-            f.write('CONFIG_PROTECT="%s"\nCONFIG_PROTECT_MASK="%s"\n' % (" ".join(prot), " ".join(mask)))
-            if ign:
-                f.write('COLLISION_IGNORE="%s"\n' % " ".join(ign))
         locs = []
         for _ in range(60):
             locs.append(root + "/" + "/".join(rng.choice(comps) for _ in range(rng.randint(1, 4))))
         locs += [root, root + "/etc", "/etc/foo", root + "x/etc/foo"]
-        try:
-            pf = etriggers.gen_config_protect_filter(offset).match
-            igf = etriggers.gen_collision_ignore_filter(offset).match
-            impl = [[bool(pf(l)), bool(igf(l))] for l in locs]
-        except Exception as e:
-            ctx.violation({"offset_style": style, "protects": prot, "masks": mask, "ignores": ign}, f"building/applying the filters raised {type(e).__name__}: {e}")
-            continue
         alld = set()
         for d in dirs + ["/etc/env.d"]:
             while d not in ("/", ""):
                 alld.add(d)
                 d = posixpath.dirname(d)
-        batch.append(({"cmd": "c21.filters", "offset": offset, "protects": prot, "masks": mask, "ignores": ign, "dirs": sorted(root + d for d in alld) + [root], "locs": locs},
-                      (style, prot, mask, ign, dirs, sorted(alld), root, locs, impl)))
+        # the filters are asked for again and again by one process (every trigger run of every package): second and third round on the same root after
+        # env.d was rewritten in place with other settings
+        for rnd in range(rng.choice([1, 2, 2, 3])):
+            if rnd:
+                style = rng.choice([style, style, "plain", "double"])
+                offset = {"plain": root, "trailing": root + "/", "dotted": base + "/./r", "double": base + "//r", "slash": root}[style]
+                prot = [rng.choice(["/opt/cfg", "/usr/share/x", "/var/lib", "/etc/app", "/opt", "/"]) for _ in range(rng.randrange(3))]
+                mask = [rng.choice(["/etc/app", "/etc/app/conf.d", "/opt/cfg/sub", "/usr/share", "/etc"]) for _ in range(rng.randrange(3))]
+                ign = [rng.choice(pats) for _ in range(rng.randrange(4))]
+                ctx.count("filter_settings_rewritten_in_place")
+            with open(root + "/etc/env.d/50x", "w") as f:
+                f.write('CONFIG_PROTECT="%s"\nCONFIG_PROTECT_MASK="%s"\n' % (" ".join(prot), " ".join(mask)))
+                if ign:
+                    f.write('COLLISION_IGNORE="%s"\n' % " ".join(ign))
+            try:
+                pf = etriggers.gen_config_protect_filter(offset).match
+                igf = etriggers.gen_collision_ignore_filter(offset).match
+                impl = [[bool(pf(l)), bool(igf(l))] for l in locs]
+            except Exception as e:
+                ctx.violation({"offset_style": style, "protects": prot, "masks": mask, "ignores": ign}, f"building/applying the filters raised {type(e).__name__}: {e}")
+                break
+            batch.append(({"cmd": "c21.filters", "offset": offset, "protects": prot, "masks": mask, "ignores": ign, "dirs": sorted(root + d for d in alld) + [root], "locs": locs},
+                          (style + (" (round %d on this root: env.d rewritten in place)" % (rnd + 1) if rnd else ""), prot, mask, ign, dirs, sorted(alld), root, locs, impl)))
         shutil.rmtree(base, ignore_errors=True)
     # offset "/" (read-only): whatever the real /etc/env.d says, on a fixed list of paths
     try:
@@ -555,7 +676,7 @@ def run(ctx):
     cases = [dict(c) for c in CORPUS]
     if ctx.replay_cases:
         cases = [c for c in ctx.replay_cases if "envd" in c] + cases
-    for _ in range(ctx.n(400, 8000)):
+    for _ in range(ctx.n(300, 6000)):
         cases.append(gen_case(rng))
     # runs with the engine's default plugins spawn ldconfig and are slow: keep a bounded number of them
     budget = ctx.n(5, 60)
@@ -564,6 +685,13 @@ def run(ctx):
             if budget <= 0:
                 c["plugins"] = False
             budget -= 1
+    # histories: several operations of this one process on one root, env.d and config files edited in between
+    hists = [{"steps": [dict(c) for c in h["steps"]]} for h in HISTORY_CORPUS]
+    if ctx.replay_cases:
+        hists = [h for h in ctx.replay_cases if "steps" in h] + hists
+    for _ in range(ctx.n(70, 1400)):
+        hists.append(gen_history(rng))
+    runs = [{"steps": [c]} for c in cases] + hists
     scratch = tempfile.mkdtemp(prefix="verif-c21-", dir="/dev/shm" if os.access("/dev/shm", os.W_OK) else None)
     # hash with the two handlers a vdb CONTENTS file records (md5 + size): with the full handler set snakeoil starts ten threads per file
     from snakeoil import chksum
@@ -573,24 +701,46 @@ def run(ctx):
         if k not in ("md5", "size"):
             del chksum.chksum_types[k]
     pending = []
+    chains = []
     try:
-        for c in cases:
-            res = run_impl(c, scratch, mods)
-            orc = Oracle(c, res["root"])
-            exp, numbering, notes = expected_tree(c, orc)
-            ctx.case(c, bool(numbering or notes["kept"]) and bool(notes["merged"] or notes["removed"]), key=repr(sorted((k, repr(v)) for k, v in c.items())))
-            ctx.count("mode_" + c["mode"])
-            ctx.count("offset_" + c["offset_style"])
-            ctx.count("protected_files", len(numbering))
-            ctx.count("kept_at_unmerge", len(notes["kept"]))
-            if res["exc"]:
-                ctx.violation(c, res["exc"])
-                continue
-            bad = check_property(c, res, orc)
-            if bad:
-                ctx.violation(c, bad)
-                continue
-            pending.append((c, res))
+        for h in runs:
+            steps = h["steps"]
+            single = len(steps) == 1
+            results = run_steps(steps, scratch, mods)
+            ok = len(results) == len(steps)
+            if not single:
+                ctx.count("histories")
+                ctx.count("history_length_%d" % len(steps))
+            for i, (c, res) in enumerate(results):
+                report = c if single else h            # what a replay needs
+                where = "" if single else (f"operation {i + 1} of {len(steps)} in one process ({c['mode']}; env.d files {'/'.join(res['envd_edits']) or 'unchanged'} "
+                                           f"since the previous operation, now CONFIG_PROTECT/MASK/COLLISION_IGNORE = {settings_of(c)}): ")
+                orc = Oracle(c, res["root"])
+                exp, numbering, notes = expected_tree(c, orc)
+                ctx.case(report, bool(numbering or notes["kept"]) and bool(notes["merged"] or notes["removed"]), key=repr(sorted((k, repr(v)) for k, v in c.items())))
+                ctx.count("mode_" + c["mode"])
+                ctx.count("offset_" + c["offset_style"])
+                ctx.count("protected_files", len(numbering))
+                ctx.count("kept_at_unmerge", len(notes["kept"]))
+                if i:
+                    ctx.count("later_operation_envd_" + ("+".join(res["envd_edits"]) or "unchanged"))
+                    prev = results[i - 1][0]
+                    po = Oracle(dict(c, envd=prev["envd"], extra_protects=prev["extra_protects"], extra_masks=prev["extra_masks"]), res["root"])
+                    un = c["mode"] == "uninstall"
+                    if any(po.protected(p, uninstall=un) != orc.protected(p, uninstall=un) for p in list(numbering) + notes["kept"] + notes["merged"] + notes["removed"]):
+                        ctx.count("later_operation_decided_by_changed_settings")
+                if res["exc"]:
+                    ctx.violation(report, where + res["exc"])
+                    ok = False
+                    continue
+                bad = check_property(c, res, orc)
+                if bad:
+                    ctx.violation(report, where + bad)
+                    ok = False
+                    continue
+                pending.append((c, res))
+            if ok and not single and all(c["mode"] != "replace" for c in steps):
+                chains.append((h, results))
         # ---- edge A: the Lean model of the triggers on the same cases
         ids = {}
         reqs, owners = [], []
@@ -632,6 +782,37 @@ def run(ctx):
                 ctx.mismatch(c, f"live files after the run (model, implementation): {dict(sorted(diff.items()))}")
                 continue
             ctx.traces += 1
+        # ---- edge A for whole histories: Model.runOps (the state an operation finds = what the operations before left) against the real trees
+        reqs = []
+        for h, results in chains:
+            ops = []
+            for i, (c, res) in enumerate(results):
+                root = res["root"]
+                offset = {"plain": root, "trailing": root + "/", "dotted": posixpath.dirname(root) + "/./root", "double": posixpath.dirname(root) + "//root"}[c["offset_style"]]
+                ops.append({"op": "edit", "files": [{"dir": split(root, p)[0], "base": split(root, p)[1], "content": ids.setdefault(cc, len(ids) + 1)}
+                                                    for p, cc in h["steps"][i]["live"].items()]})
+                (kind, r), = model_requests(c, root, offset, ids)
+                r = {k: v for k, v in r.items() if k not in ("cmd", "live")}
+                r["op"] = kind
+                ops.append(r)
+            reqs.append({"cmd": "c21.history", "live": [], "ops": ops})
+        inv = {v: k for k, v in ids.items()}
+        for (h, results), rep in zip(chains, ctx.model(reqs)):
+            ctx.evaluations += 1
+            if not isinstance(rep, list) or len(rep) != 2 * len(results):
+                ctx.mismatch(h, f"driver rejected the history request: {rep!r}")
+                continue
+            for i, (c, res) in enumerate(results):
+                root = res["root"]
+                files = {p: v[1] for p, v in res["tree"].items() if v[0] == "f"}
+                cur = {d[len(root):] + "/" + b: inv[cn] for d, b, cn in rep[2 * i + 1]}
+                if cur != files:
+                    diff = {k: (cur.get(k), files.get(k)) for k in set(cur) | set(files) if cur.get(k) != files.get(k)}
+                    ctx.mismatch(h, f"live files after operation {i + 1} of the history (Model.runOps, implementation): {dict(sorted(diff.items()))}")
+                    break
+            else:
+                ctx.traces += 1
+                ctx.count("histories_matching_model_runOps")
         filter_differential(ctx, etriggers, scratch)
         # ---- pending-update names: parse / format
         names = []
@@ -667,7 +848,9 @@ LEVEL_TEXT = ("Kernel-checked Lean 4 theorems about a model of gen_config_protec
               "differs from the recorded one. The model is tied to the code by complete install / replace / uninstall runs of the real MergeEngine with the ebuild "
               "triggers on scratch roots (env.d files, pending updates, globs, directory entries, unnormalised offsets), whose resulting trees and recorded "
               "contents are compared with the model and judged by an oracle written from the property text, plus differential tests of both filters and of the "
-              "name parser.")
+              "name parser. Histories (history_* theorems over Model.runOps: each operation takes the settings env.d holds when it runs, earlier operations under "
+              "other settings pass on nothing but the file system) are tied to the code by runs of several operations of one process on one root with env.d "
+              "rewritten in place, extended or reduced in between, each step judged by the oracle and the whole chain compared with runOps.")
 LEVEL_NOTE = ("Partial: the clause 'the recorded contents keep the real name' (ConfigProtectInstall_restore) is modelled and compared on every sampled run but not "
               "proved; merge/unmerge are abstracted (C18/C20); env.d parsing, checksums, fnmatch bracket classes and int() on exotic digit strings are trusted / "
               "not generated; offset '/' is exercised for the filters only.")
